@@ -17,6 +17,8 @@ from core import Case, q, qs, qpts, fr, show_list, show_pts, err_class
 import gen as G
 
 PID = 'C08'
+FLOAT_KINDS = {'elevred', 'elev', 'elev-rows', 'red', 'binom', 'bern', 'opdeg'}      # float-mode companion (core.float_companion)
+FLOAT_TOL = 1e-8
 STATS = G.STATS
 PARTIAL = []   # every planned theorem of DESIGN section 7/C08 (tier 1 and tier 2) is proved, see Props/C08.lean
 ASSUMPTIONS = [
